@@ -236,34 +236,153 @@ func c13(repo string, out *fg.Out) error {
 	if err != nil {
 		return err
 	}
-	rdIf := errBranchOfCall(rbf, rb, "", "restoreDataFiles")
-	if rdIf == nil {
-		return fmt.Errorf("RestoreBackup: `if err := m.restoreDataFiles(…); err != nil {…}` not found")
-	}
-	setsFailed, returnsErr := false, false
-	for _, s := range rdIf.Body.List {
-		if as, ok := s.(*ast.AssignStmt); ok && len(as.Lhs) == 1 && len(as.Rhs) == 1 {
-			if v, ok := strLit(as.Rhs[0]); ok && v == "failed" && strings.HasSuffix(rbf.Text(as.Lhs[0]), ".Status") {
-				setsFailed = true
+	// ---- the step program of RestoreBackup: every top-level `if opts.RestoreX [&& manifest.HasY] {…}`
+	// wrapper in source order, with what happens to the error its step returns, plus every
+	// top-level `if err != nil { fail }` check of the shared error variable.
+	failsRestore := func(body []ast.Stmt) bool { // sets Status="failed" and returns a non-nil error
+		setsFailed, ret := false, false
+		for _, s := range body {
+			if as, ok := s.(*ast.AssignStmt); ok && len(as.Lhs) == 1 && len(as.Rhs) == 1 {
+				if v, ok := strLit(as.Rhs[0]); ok && v == "failed" && strings.HasSuffix(rbf.Text(as.Lhs[0]), ".Status") {
+					setsFailed = true
+				}
+			}
+			if returnsError(s) {
+				ret = true
 			}
 		}
-		if returnsError(s) {
-			returnsErr = true
-		}
+		return setsFailed && ret
 	}
-	if !setsFailed || !returnsErr {
-		return fmt.Errorf("RestoreBackup: a restoreDataFiles error must set Status=\"failed\" and be returned (setsFailed=%v returns=%v)", setsFailed, returnsErr)
+	stepCall := func(e ast.Expr) int {
+		c, ok := e.(*ast.CallExpr)
+		if !ok {
+			return -1
+		}
+		switch fg.CalleeName(c) {
+		case "restoreDataFiles":
+			return 0
+		case "restoreSQLite":
+			return 1
+		case "restoreConfig":
+			return 2
+		}
+		return -1
+	}
+	wantCond := map[int]string{0: "opts.RestoreData", 1: "opts.RestoreMetadata&&manifest.HasMetadata", 2: "opts.RestoreConfig&&manifest.HasConfig"}
+	type instr struct{ Kind, Mode int }
+	var prog []instr
+	seenManifest, skipManifestCheck := false, false
+	lastStep := token.NoPos
+	for _, top := range rb.Body.List {
+		if !seenManifest { // everything up to and including the GetBackup error check
+			if len(fg.CallsNamed(top, "GetBackup")) > 0 {
+				seenManifest = true
+				skipManifestCheck = true
+			}
+			continue
+		}
+		if skipManifestCheck { // the `if err != nil {…}` belonging to GetBackup
+			skipManifestCheck = false
+			if x, ok := top.(*ast.IfStmt); ok && x.Init == nil && isErrNotNil(x.Cond) {
+				if !failsRestore(x.Body.List) {
+					return fmt.Errorf("RestoreBackup: a GetBackup error no longer fails the restore")
+				}
+				continue
+			}
+			return fmt.Errorf("RestoreBackup: GetBackup is not followed by `if err != nil {fail}`")
+		}
+		ifs, ok := top.(*ast.IfStmt)
+		if !ok {
+			// a step call outside a wrapper is a shape we do not know
+			bad := false
+			ast.Inspect(top, func(n ast.Node) bool {
+				if e, ok := n.(ast.Expr); ok && stepCall(e) >= 0 {
+					bad = true
+				}
+				return true
+			})
+			if bad {
+				return fmt.Errorf("RestoreBackup: a restore step is called outside an `if opts.Restore… {}` wrapper (line %d)", rbf.Line(top))
+			}
+			continue
+		}
+		cond := strings.ReplaceAll(rbf.Text(ifs.Cond), " ", "")
+		if ifs.Init == nil && isErrNotNil(ifs.Cond) {
+			if !failsRestore(ifs.Body.List) {
+				return fmt.Errorf("RestoreBackup: top-level `if err != nil {…}` (line %d) does not fail the restore", rbf.Line(ifs))
+			}
+			prog = append(prog, instr{9, 0})
+			continue
+		}
+		if !strings.HasPrefix(cond, "opts.Restore") {
+			continue
+		}
+		if ifs.Init != nil || ifs.Else != nil {
+			return fmt.Errorf("RestoreBackup: unexpected init/else on step wrapper (line %d)", rbf.Line(ifs))
+		}
+		kind, mode := -1, -1
+		body := ifs.Body.List
+		for i, st := range body {
+			switch x := st.(type) {
+			case *ast.IfStmt: // if err :=|= step(); err != nil { … }
+				as, ok := x.Init.(*ast.AssignStmt)
+				if !ok || len(as.Rhs) != 1 || stepCall(as.Rhs[0]) < 0 {
+					continue
+				}
+				kind = stepCall(as.Rhs[0])
+				switch {
+				case isErrNotNil(x.Cond) && failsRestore(x.Body.List):
+					mode = 0
+				case as.Tok == token.ASSIGN:
+					mode = 1 // stored in the shared variable, not failed here
+				default:
+					mode = 3 // declared locally and dropped
+				}
+			case *ast.AssignStmt: // err = step()
+				if len(x.Rhs) != 1 || stepCall(x.Rhs[0]) < 0 {
+					continue
+				}
+				kind = stepCall(x.Rhs[0])
+				mode = 3
+				if x.Tok == token.ASSIGN {
+					mode = 1
+				}
+				for _, nx := range body[i+1:] { // an unconditional-on-error failure right after it
+					if n2, ok := nx.(*ast.IfStmt); ok && n2.Init == nil && isErrNotNil(n2.Cond) && failsRestore(n2.Body.List) {
+						mode = 0
+					}
+				}
+			case *ast.ExprStmt:
+				if stepCall(x.X) >= 0 {
+					kind, mode = stepCall(x.X), 3
+				}
+			}
+			if kind >= 0 {
+				break
+			}
+		}
+		if kind < 0 {
+			return fmt.Errorf("RestoreBackup: wrapper `if %s` (line %d) contains no recognisable restore step", cond, rbf.Line(ifs))
+		}
+		if cond != wantCond[kind] {
+			return fmt.Errorf("RestoreBackup: step %d is guarded by `%s`, expected `%s`", kind, cond, wantCond[kind])
+		}
+		prog = append(prog, instr{kind, mode})
+		lastStep = ifs.End()
+	}
+	if len(prog) == 0 || lastStep == token.NoPos {
+		return fmt.Errorf("RestoreBackup: no restore steps found")
 	}
 	completedUncond := false
 	for _, s := range rb.Body.List { // direct children only = unconditional
-		if as, ok := s.(*ast.AssignStmt); ok && len(as.Lhs) == 1 && len(as.Rhs) == 1 && s.Pos() > rdIf.End() {
+		if as, ok := s.(*ast.AssignStmt); ok && len(as.Lhs) == 1 && len(as.Rhs) == 1 && s.Pos() > lastStep {
 			if v, ok := strLit(as.Rhs[0]); ok && v == "completed" && strings.HasSuffix(rbf.Text(as.Lhs[0]), ".Status") {
 				completedUncond = true
 			}
 		}
 	}
 	if !completedUncond {
-		return fmt.Errorf("RestoreBackup: unconditional `progress.Status = \"completed\"` after the data step not found")
+		return fmt.Errorf("RestoreBackup: unconditional `progress.Status = \"completed\"` after the last step not found")
 	}
 	srf, sr, err := need("Manager", "streamRestoreFile")
 	if err != nil {
@@ -403,7 +522,8 @@ func c13(repo string, out *fg.Out) error {
 	manifestSkipped := false
 	for _, s := range cb.Body.List {
 		if as, ok := s.(*ast.AssignStmt); ok && len(as.Lhs) == 1 && len(as.Rhs) == 1 && as.Tok == token.ASSIGN {
-			if cbF.Text(as.Lhs[0]) == "manifest.SkippedFiles" && strings.Contains(cbF.Text(as.Rhs[0]), "progress.SkippedFiles") && as.End() < marshal[0].Pos() {
+			if cbF.Text(as.Lhs[0]) == "manifest.SkippedFiles" && strings.Contains(cbF.Text(as.Rhs[0]), "progress.SkippedFiles") && as.End() < marshal[0].Pos() &&
+				as.Pos() > copies[1].End() { // taken after EVERY file group was copied
 				manifestSkipped = true
 			}
 		}
@@ -536,6 +656,12 @@ func c13(repo string, out *fg.Out) error {
 	fmt.Fprintf(w, "def ratioDen : Nat := %d\n", rat.Denom().Int64())
 	fmt.Fprintf(w, "def ratioChecked : Bool := %v\n", ratioChecked)
 	fmt.Fprintf(w, "def manifestSkippedBeforeMarshal : Bool := %v\n", manifestSkipped)
+	var ps []string
+	for _, in := range prog {
+		ps = append(ps, fmt.Sprintf("(%d, %d)", in.Kind, in.Mode))
+	}
+	fmt.Fprintf(w, "/-- RestoreBackup step program: (kind 0=data 1=sqlite 2=config 9=check-shared-err, mode 0=fail-now 1=assign 2=accumulate 3=ignore) -/\n")
+	fmt.Fprintf(w, "def restoreProgram : List (Nat × Nat) := [%s]\n", strings.Join(ps, ", "))
 	fmt.Fprintf(w, "def parquetSuffix : List Nat := %s\n", leanCodes(parquetSuffix))
 	fmt.Fprintf(w, "def metadataSeg : List Nat := %s\n", leanCodes(metaSeg))
 	fmt.Fprintf(w, "def partSuffix : List Nat := %s\n", leanCodes(partSuffix))
@@ -550,6 +676,7 @@ func c13(repo string, out *fg.Out) error {
 	out.JSON["manifest_skipped_before_marshal"] = manifestSkipped
 	out.JSON["read_err_is_source_read"] = readIsSrc
 	out.JSON["write_err_is_source_read"] = writeIsSrc
+	out.JSON["restore_program"] = prog
 	out.JSON["parquet_suffix"] = parquetSuffix
 	out.JSON["metadata_seg"] = metaSeg
 	out.JSON["part_suffix"] = partSuffix
